@@ -42,6 +42,9 @@ func ok_mod(b []byte) []byte { if len(b)%16 != 0 || len(b) == 0 { return nil }; 
 func ok_slice_cap(b []byte, n int) []byte { if n < 0 { return nil }; if cap(b) < n { b = make([]byte, n) }; return b[:n] }
 func bad_slice_cap(b []byte, n int) []byte { if n < 0 || len(b) < 1 { return nil }; return b[:n] }
 func bad_index_after_reslice(b []byte) byte { c := b[:cap(b)]; _ = c; if len(b) < 1 { return 0 }; return b[cap(b)-1] }
+type sbuf struct{ b []byte }
+func ok_mem_phi(s *sbuf, n int) []byte { if n < 0 { return nil }; if cap(s.b) < n { s.b = make([]byte, n) }; return s.b[:n] }
+func bad_slice_mem_phi(s *sbuf, n int) []byte { if n < 1 { return nil }; if cap(s.b) < n-1 { s.b = make([]byte, n) }; return s.b[:n] }
 func bad_div_zero(n, d int) int { return n / d }
 func ok_div(n, d int) int { if d <= 0 { return 0 }; return n / d }
 func bad_make_neg(n int) []byte { return make([]byte, n) }
